@@ -20,6 +20,7 @@
 -/
 import JS.Proofs.CheckSchema
 import JS.Props.C02
+import JS.Proofs.Bridge
 namespace JS.Props.C11
 open JS
 
@@ -210,6 +211,20 @@ private theorem meta_verdict (s : Json) (hws : Spec.WF s = true) (fuel : Nat)
   rw [metaStore_eq hst]
   exact Props.C15.sameWorld_fresh (metaEnv d) st (metaMemo_eq hst)
 
+/-- … and so is the specification's answer with any number of steps from `fuel` on (the limit) -/
+private theorem meta_verdict_from (s : Json) (hws : Spec.WF s = true) (fuel : Nat)
+    (hst : metaState d = some st)
+    (hdone : (eval (metaEnv d) ⟨fun _ _ => none⟩ (d.cfg none) fuel s d.metaSchema none st).stop = .done)
+    (m : Nat) (hm : fuel ≤ m) :
+    (eval (metaEnv d) ⟨fun _ _ => none⟩ (d.cfg none) fuel s d.metaSchema none st).errs = []
+      ↔ Spec.validRN (metaEnv d) d (metaStore d) m (metaTop d) d.metaSchema s = true := by
+  refine Props.C02.ref_verdict_agrees_local (metaEnv d) (fun _ _ => ⟨false, rfl⟩)
+    (fun xs => ⟨xs, rfl, List.Perm.refl _⟩) ⟨fun _ _ _ => rfl, fun _ _ _ _ _ _ => rfl⟩
+    ⟨fun _ _ => none⟩ d (metaStore d) (metaDomain d) (metaDomain_ok_partial d).1 (metaTop d)
+    d.metaSchema s (metaDomain_ok_partial d).2 hws fuel st ?_ (metaTop_eq hst).symm hdone m hm
+  rw [metaStore_eq hst]
+  exact Props.C15.sameWorld_fresh (metaEnv d) st (metaMemo_eq hst)
+
 end
 
 /-- **check_schema accepts exactly what the metaschema allows** (reference-aware specification) -/
@@ -241,5 +256,103 @@ theorem checkSchema_rejects_iff_spec (d : Draft) (s : Json) (hws : Spec.WF s = t
     intro h
     rw [hv.2 h] at he
     cases he
+
+/-! ### The bridge: what check_schema accepts has the shape the evaluator's theorems assume
+
+C01, C03, C05, C06 are stated for schemas of the shape `Spec.shaped`/`Spec.shapedR` (a hand-written
+predicate: "what the metaschema prescribes, where validation cares"). That check_schema accepts
+only such schemas was sampled so far (SPEC/SHAPE correspondence). With the reference-aware
+specification it is a statement about two specifications: if the bundled metaschema, read by the
+draft's own rules, allows the candidate (in the limit: `Spec.ValidR … true`), then the candidate
+is `shapedR`. Proved for all four drafts as stated (JS.Proofs.Bridge): no keyword was found where
+`Spec.shapedN` demands more than the bundled metaschema. Draft 3 does not even need the proviso on
+`$ref` (`allowed_is_shaped_d3`); draft 4 does (`allowed_is_shaped_d4_needs_refs`). -/
+
+/-- the metaschema allows `s` (the specification's answer is eventually `true`) -/
+def MetaAllows (d : Draft) (s : Json) : Prop :=
+  Spec.ValidR (metaEnv d) d (metaStore d) (metaTop d) d.metaSchema s true
+
+set_option linter.unusedVariables false in  -- `hws` turns out not to be needed
+/-- **The bridge** for drafts 6 and 7 (whose metaschemas constrain `$ref` to strings) -/
+theorem allowed_is_shaped (d : Draft) (hd : d = .d6 ∨ d = .d7) (s : Json) (hws : Spec.WF s = true)
+    (h : MetaAllows d s) : Spec.shapedR d s = true :=
+  Bridge.allowed_shaped67 d hd s ⟨metaTop d, (Bridge.facts d).root.top, h⟩
+
+set_option linter.unusedVariables false in  -- `hws` turns out not to be needed
+/-- … and for drafts 3 and 4, whose metaschemas say nothing about `$ref`, for candidates whose
+    `$ref` values are strings (C03's own proviso) -/
+theorem allowed_is_shaped_d34 (d : Draft) (hd : d = .d3 ∨ d = .d4) (s : Json) (hws : Spec.WF s = true)
+    (hrefs : Spec.refsAreStrings s = true) (h : MetaAllows d s) : Spec.shapedR d s = true :=
+  Bridge.allowed_shaped34 d hd s hrefs ⟨metaTop d, (Bridge.facts d).root.top, h⟩
+
+/-- hence: what check_schema accepts (the metaschema run ending normally) is shaped -/
+theorem accepted_is_shaped (d : Draft) (s : Json) (hws : Spec.WF s = true)
+    (hrefs : Spec.refsAreStrings s = true) (fuel : Nat) (st : RState) (hst : metaState d = some st)
+    (hdone : (eval (metaEnv d) ⟨fun _ _ => none⟩ (d.cfg none) fuel s d.metaSchema none st).stop = .done)
+    (hacc : checkSchema (metaEnv d) ⟨fun _ _ => none⟩ Globals.initial d.classDef fuel s = .ok) :
+    Spec.shapedR d s = true := by
+  have herr := ((checkSchema_draft _ _ _ d fuel s st (fresh_of_metaState hst)).symm.trans hacc)
+  rw [Out.verdict_ok] at herr
+  have hall : MetaAllows d s :=
+    ⟨fuel, fun m hm => (meta_verdict_from s hws fuel hst hdone m hm).1 herr.1⟩
+  cases d
+  · exact allowed_is_shaped_d34 .d3 (.inl rfl) s hws hrefs hall
+  · exact allowed_is_shaped_d34 .d4 (.inr rfl) s hws hrefs hall
+  · exact allowed_is_shaped .d6 (.inl rfl) s hws hall
+  · exact allowed_is_shaped .d7 (.inr rfl) s hws hall
+
+/-- Draft 3 needs no proviso on `$ref`: its bundled metaschema has the property
+    `"$ref": {"type": "string", "format": "uri"}` (additional to the statements as given) -/
+theorem allowed_is_shaped_d3 (s : Json) (h : MetaAllows .d3 s) : Spec.shapedR .d3 s = true :=
+  Bridge.allowed_shaped3 s ⟨metaTop .d3, (Bridge.facts .d3).root.top, h⟩
+
+/-- `{"$ref": 1}` -/
+def refNum : Json := .obj [(k!"$ref", .num (.int 1))]
+
+/-- the metaschema run of draft 4 on `{"$ref": 1}` ends normally without an error -/
+def refNumAccepted : Bool :=
+  match metaState .d4 with
+  | some st =>
+    (eval (metaEnv .d4) ⟨fun _ _ => none⟩ (Draft.d4.cfg none) 8 refNum Draft.d4.metaSchema none st).stop.isDone
+    && (eval (metaEnv .d4) ⟨fun _ _ => none⟩ (Draft.d4.cfg none) 8 refNum Draft.d4.metaSchema none st).errs.isEmpty
+  | none => false
+
+theorem refNumAccepted_ok : refNumAccepted = true := by decide +kernel
+
+/-- In draft 4 the proviso cannot be dropped: the bundled metaschema has no `$ref` property, it
+    allows `{"$ref": 1}` (in the limit), which is not `shapedR` (a non-string `$ref` is outside
+    the domain of C03: the proviso of `allowed_is_shaped_d34` is exactly C03's). -/
+theorem allowed_is_shaped_d4_needs_refs :
+    MetaAllows .d4 refNum ∧ Spec.WF refNum = true ∧ Spec.shapedR .d4 refNum = false := by
+  refine ⟨?_, by decide +kernel, by decide +kernel⟩
+  have h := refNumAccepted_ok
+  unfold refNumAccepted at h
+  cases hst : metaState .d4 with
+  | none => rw [hst] at h; cases h
+  | some st =>
+    rw [hst] at h
+    dsimp only at h
+    rw [Bool.and_eq_true] at h
+    have hdone := Props.C02.Recursive.done_of_isDone h.1
+    exact ⟨8, fun m hm => (meta_verdict_from refNum (by decide +kernel) 8 hst hdone m hm).1
+      (List.isEmpty_iff.1 h.2)⟩
+
+/-- **… and anything check_schema accepts can then be used to validate any instance without
+    crashing** (the property's third sentence, C03 through the bridge): for a candidate that
+    check_schema accepts (the metaschema run ending normally), every evaluation against ANY
+    instance, with or without a format checker, under every budget and from every resolver state,
+    ends benignly — done, closed early, out of fuel, `RefResolutionError`, an oracle miss, in Draft 3
+    `UnknownType`, a format function's own exception — unless a reference met on the way designates
+    something that is not a schema (the guarded evaluator's marker). `refsAreStrings` is C03's
+    proviso (needed in Draft 4 only: `allowed_is_shaped_d4_needs_refs`). -/
+theorem accepted_never_crashes (d : Draft) (s : Json) (hws : Spec.WF s = true)
+    (hrefs : Spec.refsAreStrings s = true) (fuel : Nat) (st₀ : RState) (hst : metaState d = some st₀)
+    (hdone : (eval (metaEnv d) ⟨fun _ _ => none⟩ (d.cfg none) fuel s d.metaSchema none st₀).stop = .done)
+    (hacc : checkSchema (metaEnv d) ⟨fun _ _ => none⟩ Globals.initial d.classDef fuel s = .ok)
+    (env : Env) (hre : Props.C03.RegexOk env) (hso : Spec.SetOrderOk env) (impl : FmtImpl)
+    (fc : Option FormatChecker) (n : Nat) (i : Json) (b : Option Nat) (st : RState) :
+    Props.C03.Benign d fc.isSome (eval env impl (d.cfg fc) n i s b st).stop
+    ∨ (Props.C03.evalG env impl d fc n i s b st).stop = .raised Props.C03.unshapedTarget :=
+  Props.C03.no_crash env hre hso impl d fc n i s (accepted_is_shaped d s hws hrefs fuel st₀ hst hdone hacc) b st
 
 end JS.Props.C11
